@@ -776,6 +776,7 @@ func (tx *Transaction) ExtractGetArguments(uri string) {
 func (tx *Transaction) AddGetRequestArgument(key string, value string) {
 	if tx.checkArgumentLimit(tx.variables.argsGet) {
 		tx.debugLogger.Warn().Msg("skipping get request argument, over limit")
+		tx.reportArgumentLimitExceeded()
 		return
 	}
 	tx.variables.argsGet.Add(key, value)
@@ -785,6 +786,7 @@ func (tx *Transaction) AddGetRequestArgument(key string, value string) {
 func (tx *Transaction) AddPostRequestArgument(key string, value string) {
 	if tx.checkArgumentLimit(tx.variables.argsPost) {
 		tx.debugLogger.Warn().Msg("skipping post request argument, over limit")
+		tx.reportArgumentLimitExceeded()
 		return
 	}
 	tx.variables.argsPost.Add(key, value)
@@ -794,6 +796,7 @@ func (tx *Transaction) AddPostRequestArgument(key string, value string) {
 func (tx *Transaction) AddPathRequestArgument(key string, value string) {
 	if tx.checkArgumentLimit(tx.variables.argsPath) {
 		tx.debugLogger.Warn().Msg("skipping path request argument, over limit")
+		tx.reportArgumentLimitExceeded()
 		return
 	}
 	tx.variables.argsPath.Add(key, value)
@@ -801,6 +804,17 @@ func (tx *Transaction) AddPathRequestArgument(key string, value string) {
 
 func (tx *Transaction) checkArgumentLimit(c *collections.NamedCollection) bool {
 	return c.Len() >= tx.WAF.ArgumentLimit
+}
+
+// reportArgumentLimitExceeded makes a dropped argument visible to rules: like ModSecurity,
+// REQBODY_ERROR is set to 1 (and REQBODY_ERROR_MSG says why) when an argument is skipped
+// because SecArgumentsLimit was reached, so that a rule set can tell that it is not
+// inspecting the whole request.
+func (tx *Transaction) reportArgumentLimitExceeded() {
+	if tx.variables.reqbodyError.Get() != "1" {
+		tx.variables.reqbodyError.Set("1")
+		tx.variables.reqbodyErrorMsg.Set("SecArgumentsLimit exceeded")
+	}
 }
 
 // AddResponseArgument
